@@ -67,6 +67,9 @@ func (e *c05Env) start(root string, mem bool) (*store.CAStore, error) {
 	return store.NewCAStore(cfg, tally.NoopScope)
 }
 
+// the time a drain is given to finish: generous once (a loaded machine), short after a first timeout
+var c05Patience = 20 * time.Second
+
 var c05UUID = regexp.MustCompile(`[0-9a-f]{8}-[0-9a-f]{4}-[0-9a-f]{4}-[0-9a-f]{4}-[0-9a-f]{12}`)
 
 // LAT payloads depend on the wall clock: the transcript shows `LAT` for a current one and `OLD` for one
@@ -129,6 +132,27 @@ func c05Materialize(tok string) string {
 		}
 	}
 	return tok
+}
+
+// c05Freshen: the last access times a recorded plan writes carry the recording run's clock; replayed
+// minutes later they would look old to the file map (5 minute resolution). Times of this run are
+// replaced by the current time when the plan is used.
+func c05Freshen(plan []verifh.FSCall) []verifh.FSCall {
+	out := make([]verifh.FSCall, len(plan))
+	copy(out, plan)
+	for i, c := range out {
+		if c.Kind != "pwrite" || !strings.HasSuffix(c.A, "/_last_access_time") || c.Off != 0 {
+			continue
+		}
+		sec, n := binary.Varint(c.Data)
+		if n > 0 && time.Since(time.Unix(sec, 0)) < 24*time.Hour {
+			b, err := metadata.NewLastAccessTime(time.Now()).Serialize()
+			if err == nil && len(b) == len(c.Data) {
+				out[i].Data = b
+			}
+		}
+	}
+	return out
 }
 
 func (e *c05Env) fresh(name string) string {
@@ -217,11 +241,12 @@ func (e *c05Env) refresh(cas *store.CAStore, mem bool, name string, b []byte) st
 		return err
 	}, int64(e.pl))
 	if mem {
-		deadline := time.Now().Add(20 * time.Second)
+		deadline := time.Now().Add(c05Patience)
 		for cas.CheckInMemCache(name) && time.Now().Before(deadline) {
 			time.Sleep(2 * time.Millisecond)
 		}
 		if cas.CheckInMemCache(name) {
+			c05Patience = 2 * time.Second
 			return "drain-timeout"
 		}
 	}
@@ -457,6 +482,7 @@ func c05Exec(t *verifh.T, c verifh.Case, caseIdx int, base string, plans map[[2]
 		snap := ""
 		if e.phase == "B" && wantCrash {
 			plan, havePlan = plans[[2]int{caseIdx, i}]
+			plan = c05Freshen(plan)
 		}
 		if havePlan {
 			snap = e.fresh("snap")
